@@ -107,7 +107,7 @@ def run(ctx):
     bindir = vlib.build_harness(False, bins=["parsedump", "idedump", "coreast"])
     bindir_h = vlib.build_harness(True, bins=["outdump"])
     fails = vlib.proof_step(ctx, "TG.Props.C18", THEOREMS, ["props/C18.vo"], trusted_base=TRUSTED,
-                            translators=["t_tokens", "t_foldkinds", "t_handlers", "t_lextables", "t_unicode", "t_lexer", "t_grammar", "t_ast"])
+                            translators=["t_tokens", "t_foldkinds", "t_handlers", "t_lextables", "t_unicode", "t_lexer", "t_grammar", "t_grammarcert", "t_ast"])
     exe = vlib.build_model("outline")
     sk_index = L.sk_index_table()
     t_setup = time.time() - t0
